@@ -7,6 +7,7 @@ the written one and of the same Python type, the raw cell is the reference encod
 find the row; for any other value the column accepts, every read path works and they agree with each other.
 """
 import base64
+import copy
 import datetime
 import decimal
 import json
@@ -95,7 +96,7 @@ COLNAME = {'string': 'StringCol', 'unicode': 'UnicodeCol', 'int': 'IntCol', 'tin
            'pickle': 'PickleCol', 'uuid': 'UuidCol', 'json': 'JSONCol', 'fkInt': 'ForeignKey',
            'fkStr': 'ForeignKey', 'fkIntS': 'ForeignKey'}
 VARIANTS = ['eager', 'lazy', 'nocachevalues']
-PATHS = ['create', 'setattr', 'set', 'lazy', 'expire-lazy', 'expire-eager', 'expire-sync-assign', 'lazy-failflush', 'loaded']
+PATHS = ['create', 'setattr', 'set', 'lazy', 'expire-lazy', 'expire-eager', 'expire-sync-assign', 'lazy-failflush', 'loaded', 'listener', 'listener-raises']
 FK_TYPES = ('fkInt', 'fkStr', 'fkIntS')
 
 
@@ -712,7 +713,21 @@ def hit_same_row(cls, obj):
     return got
 
 
-def run_case(e, T, v, path, variant, cache):
+class ListenerBoom(Exception):
+    """raised by the harness's own RowUpdatedSignal listener in the 'listener-raises' path"""
+
+
+def mutate_in_place(x):
+    """change a mutable value after it was handed to the column (what was stored must not follow)"""
+    if isinstance(x, list):
+        x.append('MUTATED-AFTER-WRITE')
+    elif isinstance(x, dict):
+        x['MUTATED-AFTER-WRITE'] = 1
+    elif isinstance(x, bytearray):
+        x.extend(b'!')
+
+
+def run_case(e, T, v, path, variant, cache, after_write=None):
     """returns dict with outcome of the write and of every read path on the real code"""
     cls = e['classes'][(T, variant, cache)]
     conn = cls._connection
@@ -796,6 +811,38 @@ def run_case(e, T, v, path, variant, cache):
                     obj.syncUpdate()
                     view('writer-right-after-syncUpdate')
                     others_flush('after the flush')
+            elif path in ('listener', 'listener-raises'):
+                # a RowUpdatedSignal listener (and a post function it registers) reads the writing instance while
+                # the write is being announced; in 'listener-raises' it then fails: the statement was executed, so
+                # afterwards the instance must show what the row holds
+                from sqlobject import events
+                from pydispatch import dispatcher
+                seen = []
+
+                def on_updated(inst, post_funcs):
+                    try:
+                        seen.append(('listener', ('ok', getattr(inst, a))))
+                    except Exception as ex:
+                        seen.append(('listener', (exc_kind(ex), type(ex).__name__)))
+                    post_funcs.append(lambda i: seen.append(('post function', ('ok', getattr(i, a)))))
+                    if path == 'listener-raises':
+                        raise ListenerBoom()
+                events.listen(on_updated, cls, events.RowUpdatedSignal, weak=False)
+                try:
+                    try:
+                        if _rowid[0] % 2:
+                            setattr(obj, a, v)
+                        else:
+                            obj.set(**{a: v})
+                        if cls.sqlmeta.lazyUpdate:
+                            obj.syncUpdate()
+                    except ListenerBoom:
+                        out['listener_raised'] = True
+                finally:
+                    dispatcher.disconnect(on_updated, signal=events.RowUpdatedSignal, sender=cls)
+                for k, (n, r) in enumerate(seen):
+                    out['reads']['seen by the RowUpdatedSignal %s (%d)' % (n, k)] = r
+                view('writer-right-after-the-announced-write')
             elif path == 'lazy-failflush' and variant == 'lazy':
                 # a deferred assignment whose first flush the database refuses (UNIQUE conflict on u with the
                 # blocker row); the conflict is removed and the flush retried: the value must reach the row
@@ -832,6 +879,8 @@ def run_case(e, T, v, path, variant, cache):
                     obj.set(**{a: v})
                     obj.sync()
         out['rid'] = obj.id
+        if after_write is not None:
+            after_write()
     except Exception as ex:
         out['write'] = exc_kind(ex)
         out['write_exc'] = '%s: %s' % (type(ex).__name__, str(ex)[:120])
@@ -1218,6 +1267,69 @@ def directed_lookup(ctx, e):
                                      '%s: looked up %r through %s, the instance shows %r' % (col, x, which, val), desc)
 
 
+def gen_mutable(rng, depth=0):
+    """a list or dict (possibly nested) of JSON-able values"""
+    if rng.random() < 0.5:
+        return [gen_json(rng, depth + 1) for _ in range(rng.randint(0, 3))]
+    return {('k%d' % i): gen_json(rng, depth + 1) for i in range(rng.randint(0, 3))}
+
+
+def directed_mutable(ctx, e):
+    """columns holding mutable Python objects (PickleCol, JSONCol): what was STORED is what every read path shows —
+    not the caller's object, which is changed in place right after the write; and a mutable `default=` object is
+    not shared between rows"""
+    from sqlobject import SQLObject, col
+    once = Once(ctx)
+    fixed = [[1], {'a': [1, 2]}, [], {}, [[1], {'b': None}]]
+    n = 0
+    for T in ('pickle', 'json'):
+        for x in [copy.deepcopy(f) for f in fixed] + [gen_mutable(ctx.rng) for _ in range(ctx.budget(6, 60))]:
+            for path in ('create', 'setattr', 'set', 'lazy', 'expire-lazy', 'loaded'):
+                n += 1
+                variant = 'lazy' if path in ('lazy', 'expire-lazy') else VARIANTS[n % 3]
+                cache = (n % 3 != 2)
+                value = copy.deepcopy(x)
+                snap = copy.deepcopy(x)
+                try:
+                    out, cls, obj = run_case(e, T, value, path, variant, cache, after_write=lambda: mutate_in_place(value))
+                except Exception as ex:
+                    ctx.note('run_case crashed (mutable) for %r %r: %r' % (T, x, ex))
+                    continue
+                ctx.case(('mutable', T, json.dumps(snap, sort_keys=True), path), kind='mutable/%s' % T)
+                out['mutated'] = True
+                oracle(ctx, e, T, snap, path + '+caller-mutates-the-object-afterwards', variant, cache, out, cls)
+    # a mutable default
+    conn = e['conns'][True]
+    if 'mutdef' not in _alt:
+        dl, dd = [1], {'k': [1]}
+        cls = type(sqlo.uniq('C01MutDefault'), (SQLObject,),
+                   {'_connection': conn, 'p': col.PickleCol(default=dl), 'js': col.JSONCol(default=dd), 'w': col.IntCol(default=7)})
+        cls.createTable()
+        _alt['mutdef'] = (cls, dl, dd)
+    cls, dl, dd = _alt['mutdef']
+    wipe(cls)
+    r1, r2 = cls(), cls()
+    ids = (r1.id, r2.id)
+    try:
+        r1.p.append('IN-PLACE')          # changes r1's own Python object, nothing is assigned, nothing is stored
+        r1.js['IN-PLACE'] = 1
+    except Exception as ex:
+        once.oracle_fail('C01:mutable default: value of a new row cannot be used', '%s' % type(ex).__name__, {'probe': 'mutable default'})
+        return
+    conn.cache.clear()
+    f1, f2 = cls.get(ids[0]), cls.get(ids[1])
+    shown = {'the other row created with the default (writer)': (r2.p, r2.js), 'fresh read of the changed row': (f1.p, f1.js),
+             'fresh read of the other row': (f2.p, f2.js), 'the default object of the class': (dl, dd),
+             'a row created afterwards': (lambda r: (r.p, r.js))(cls())}
+    ctx.case(('mutable-default',), kind='mutable/default')
+    for name, (p, js) in shown.items():
+        if p != [1] or js != {'k': [1]}:
+            once.oracle_fail('C01:PickleCol/JSONCol:mutable default shared between rows',
+                             'rows created with default=[1] / {"k": [1]}; one row\'s value was changed in place (not assigned): '
+                             '%s shows %r / %r' % (name, p, js), {'probe': 'mutable default'})
+            return
+
+
 RESERVED_EXTRA = ['q', 'j', 'sqlmeta', '_connection', 'dirty', 'expired', 'lazyUpdate', 'cacheValues', 'columns', 'childName',
                   '_SO_val_w', 'wID', 'instanceName', 'soClass']
 
@@ -1518,7 +1630,7 @@ def run(ctx):
         out, cls, obj = run_case(e, T, v, 'setattr', 'eager', True)
         oracle(ctx, e, T, v, 'setattr', 'eager', True, out, cls)
     # ---- directed probes: alternate-ID / unique-index lookups, column names that collide with SQLObject's own
-    for probe in (directed_lookup, directed_names):
+    for probe in (directed_lookup, directed_names, directed_mutable):
         try:
             probe(ctx, e)
         except Exception as ex:      # a crash of the real code inside a probe is an outcome to look at, not a harness crash
